@@ -64,6 +64,7 @@ type Buf struct {
 	Type     *uint32   `json:"type,omitempty"`     // ulType override
 	Declared *int32    `json:"declared,omitempty"` // signature buffers: declared SignatureType when it is not the algorithm used
 	RODC     *uint16   `json:"rodc,omitempty"`     // signature buffers: RODCIdentifier present
+	Slack    string    `json:"slack,omitempty"`    // signature buffers (check "slack" only): further octets (hex) behind the last field, counted in cbBufferSize
 	Patch    []Patch   `json:"patch,omitempty"`
 	Gen      *GenLogon `json:"gen,omitempty"`
 	Hex      string    `json:"hex,omitempty"`
@@ -80,7 +81,7 @@ type Patch struct {
 
 // Tamper is applied after signing.
 type Tamper struct {
-	Kind  string `json:"kind"` // none bit wrongkey keybit sig-zero sig-random sig-is-kdc sig-kdc-not-zeroed sig-usage sig-over-unzeroed
+	Kind  string `json:"kind"` // none bit cut (Bit = octets kept) wrongkey keybit sig-zero sig-random sig-is-kdc sig-kdc-not-zeroed sig-usage sig-over-unzeroed
 	Bit   int    `json:"bit,omitempty"`
 	Key   string `json:"key,omitempty"`
 	Usage uint32 `json:"usage,omitempty"`
@@ -343,7 +344,7 @@ func (c *Case) item(m *material, i int) (pacfmt.Item, error) {
 		if n == 0 {
 			n = 20 // neither is a PAC checksum type (hmac-sha1-des3-kd under a des3 service key): room for its 20 octets
 		}
-		it = pacfmt.Item{Type: typ, Data: pacfmt.SignatureBuffer(decl, n, bf.RODC)}
+		it = pacfmt.Item{Type: typ, Data: append(pacfmt.SignatureBuffer(decl, n, bf.RODC), unhex(bf.Slack)...)}
 	case "gen:logon":
 		if bf.Gen == nil {
 			return it, fmt.Errorf("gen:logon without values")
@@ -438,6 +439,11 @@ func build(c Case) (*built, error) {
 	for _, t := range pacfmt.MissingMandatory(b.entries) {
 		setWhy(b, fmt.Sprintf("missing-buffer-%d", t))
 	}
+	for _, bf := range c.Bufs {
+		if bf.Slack != "" && c.Kind != "slack" {
+			return nil, fmt.Errorf("trailing octets in a signature buffer belong to the slack check")
+		}
+	}
 	if !c.Captured && srvDeclared != c.SrvAlg {
 		setWhy(b, "declared-type")
 	}
@@ -462,6 +468,12 @@ func build(c Case) (*built, error) {
 		if !(b.hasKDC && b.kdcValue.Contains(c.T.Bit/8)) {
 			setWhy(b, "bit:"+region(b, c.T.Bit/8))
 		}
+	case "cut":
+		if c.T.Bit < 0 || c.T.Bit >= len(b.pac) {
+			return nil, fmt.Errorf("cut to %d octets of a %d-octet PAC", c.T.Bit, len(b.pac))
+		}
+		b.pac = b.pac[:c.T.Bit]
+		setWhy(b, "cut")
 	case "wrongkey", "keybit":
 		k := unhex(c.T.Key)
 		if c.T.Kind == "keybit" {
@@ -771,7 +783,16 @@ func attrs(t *pac.PACType, p []byte, es []pacfmt.Entry) (sig, msg string) {
 		typ  uint32
 		got  *pac.SignatureData
 	}{{"ServerChecksum", pacfmt.TypeServerChecksum, t.ServerChecksum}, {"KDCChecksum", pacfmt.TypeKDCChecksum, t.KDCChecksum}} {
-		rs, err := pacfmt.ParseSignature(data(s.typ))
+		sd := data(s.typ)
+		if len(sd) >= 4 {
+			// a buffer longer than its fields (check "slack"): type, Signature and, where there is room for it, the RODC identifier
+			if n := pacfmt.SigLen(int32(binary.LittleEndian.Uint32(sd))); n > 0 && len(sd) > 4+n+2 {
+				sd = sd[:4+n+2]
+			} else if n > 0 && len(sd) == 4+n+1 {
+				sd = sd[:4+n]
+			}
+		}
+		rs, err := pacfmt.ParseSignature(sd)
 		if err != nil {
 			return "harness:reference-signature", err.Error()
 		}
@@ -835,6 +856,9 @@ func evalOutcome(c Case) (evid.Verdict, string) {
 	if c.Kind == "e2e" {
 		return evalE2E(c)
 	}
+	if c.Kind == "slack" {
+		return evalSlack(c)
+	}
 	b, err := build(c)
 	if err != nil {
 		return evid.Fail("harness:build", "cannot build the case: %v", err), "harness"
@@ -871,6 +895,84 @@ func judge(c Case, b *built) (evid.Verdict, string) {
 			}
 		} else if strings.HasPrefix(o2, "panic:") {
 			return evid.Fail("reused-pactype:"+o2, "a PACType value that had processed another PAC before panics on this one: %s", e2), outcome
+		}
+	}
+	return evid.Pass(), outcome
+}
+
+// refAcceptLoose is refAccept without the strict size rule for signature buffers: the Signature field is the one the
+// declared type says, whatever follows it in the buffer.
+func refAcceptLoose(p []byte, key []byte) bool {
+	pp, err := pacfmt.Parse(p)
+	if err != nil || len(pacfmt.MissingMandatory(pp.Entries)) > 0 {
+		return false
+	}
+	if _, err := pacfmt.ParseLogonInfo(pp.Data(pacfmt.First(pp.Entries, pacfmt.TypeLogonInfo))); err != nil {
+		return false
+	}
+	if _, err := pacfmt.ParseClientInfo(pp.Data(pacfmt.First(pp.Entries, pacfmt.TypeClientInfo))); err != nil {
+		return false
+	}
+	e := pp.Entries[pacfmt.First(pp.Entries, pacfmt.TypeServerChecksum)]
+	if e.Size < 4 {
+		return false
+	}
+	decl := int32(binary.LittleEndian.Uint32(p[e.Offset:]))
+	sp, _ := pacfmt.ValueSpan(p, pp.Entries, pacfmt.TypeServerChecksum)
+	if n := pacfmt.SigLen(decl); n == 0 || sp.Hi-sp.Lo != n {
+		return false
+	}
+	want, err := ref.Checksum(decl, key, pacfmt.KeyUsage, pacfmt.SignedData(p, pp.Entries))
+	return err == nil && bytes.Equal(want, p[sp.Lo:sp.Hi])
+}
+
+// evalSlack: a correctly signed PAC whose signature buffers declare more octets than their fields need (an encoder that
+// rounds cbBufferSize up, or one stray octet). [MS-PAC] does not say that such a buffer must be refused, and the
+// property does not either, so the verdict on the PAC itself is free. What the property does say is that every octet
+// outside the two Signature fields is signed: if the PAC is accepted, it must be reported faithfully and must stop
+// being accepted as soon as one bit of those further octets changes.
+func evalSlack(c Case) (evid.Verdict, string) {
+	if c.T.Kind != "none" && c.T.Kind != "" {
+		return evid.Fail("harness:build", "the slack check takes untampered cases"), "harness"
+	}
+	b, err := build(c)
+	if err != nil {
+		return evid.Fail("harness:build", "cannot build the case: %v", err), "harness"
+	}
+	if !b.constr {
+		return evid.Fail("harness:build", "the slack check takes presentations that are valid apart from the trailing octets (%s)", b.why), "harness"
+	}
+	if !refAcceptLoose(b.pac, b.key) {
+		return evid.Fail("harness:oracle-disagreement", "the reference does not verify its own signature over a PAC with trailing octets in a signature buffer"), "harness"
+	}
+	outcome, t, errText := observe(b.pac, b.key, b.etype)
+	if strings.HasPrefix(outcome, "panic:") {
+		return evid.Fail(outcome, "PAC with trailing octets in a signature buffer makes gokrb5 panic: %s", errText), outcome
+	}
+	if outcome != "accept" {
+		return evid.Pass(), "slack-refused"
+	}
+	if sig, msg := attrs(t, b.pac, b.entries); sig != "" {
+		return evid.Fail(sig, "%s", msg), outcome
+	}
+	seen := map[uint32]bool{}
+	for _, e := range b.entries {
+		if (e.Type != pacfmt.TypeServerChecksum && e.Type != pacfmt.TypeKDCChecksum) || seen[e.Type] || e.Size < 4 {
+			continue
+		}
+		seen[e.Type] = true
+		n := pacfmt.SigLen(int32(binary.LittleEndian.Uint32(b.pac[e.Offset:])))
+		for off := int(e.Offset) + 4 + n; off < int(e.Offset)+int(e.Size); off++ {
+			for bit := 0; bit < 8; bit++ {
+				p := append([]byte{}, b.pac...)
+				p[off] ^= 1 << uint(bit)
+				if refAcceptLoose(p, b.key) {
+					return evid.Fail("harness:oracle-disagreement", "the reference still verifies after a flip of signed octet %d", off), "harness"
+				}
+				if o, _, _ := observe(p, b.key, b.etype); o == "accept" {
+					return evid.Fail("accept-invalid:bit:"+region(b, off)+":trailing", "PAC accepted as presented and still accepted after bit %d of octet %d was flipped; the octet lies in the %s buffer behind the Signature field and is part of the signed data\npac=%x key=%x", bit, off, region(b, off), p, b.key), outcome
+				}
+			}
 		}
 	}
 	return evid.Pass(), outcome
